@@ -78,7 +78,10 @@ def mk(rng, t, start):
 
 def repr_case(rng):
     kind = rng.choice(["node", "anynode", "symlink"])
-    keys = rng.sample(["b", "a", "zeta", "_hidden", "x1", "Name", "name2", "n", "nam", "me", "targe", "t", "targets"], rng.randrange(0, 5))
+    keys = rng.sample(["b", "a", "zeta", "_hidden", "x1", "Name", "name2", "n", "nam", "me", "targe", "t", "targets",
+                       # names that are prefixes of one another (sorting by name is not sorting the `key=value` texts:
+                       # digits, '-', '.', ' ' sort below '='), set through keyword arguments / setattr
+                       "x", "x2", "x10", "v", "v1", "a b", "a-b", "a.b", "ab", "B", "é"], rng.randrange(0, 7))
     vals = [rng.choice(["1", "'s'", "None", "[1, 2]", "2.5", "{'k': 1}", "'multi\\nline'"]) for _ in keys]
     attr_src = [[k, v] for k, v in zip(keys, vals)]
     import ast
